@@ -6,6 +6,7 @@ import (
 	"go/constant"
 	"go/token"
 	"go/types"
+	"strings"
 
 	"golang.org/x/tools/go/ssa"
 )
@@ -976,4 +977,441 @@ func (ts *c18Tables) tableCall(fn *ssa.Function, c ssa.CallInstruction, args []s
 		at = append(at, tbl.at[j])
 	}
 	return calls, at, ""
+}
+
+// ---------------------------------------------------------------------------
+// Module folds run by a helper
+//
+// A module activator either runs its accumulate loop itself or hands its inputs to ONE function of the library that
+// runs it (`return []float64{fold(inputs, start, op)}`). The fold rule (C18.3) states facts about the loop - what the
+// accumulator starts from, what one iteration does with it and an input, that all inputs are visited, that the
+// accumulator is the result. c18FoldOf locates the loop in either place and answers those questions in terms of the
+// ACTIVATOR's own values: a parameter of the host function stands for the argument the activator passes for it, and a
+// call through a function-valued parameter stands for the operation of the function passed (math.Max / math.Min, or a
+// literal / declared function of the library whose body is one `return a*b`, `return math.Max(a, b)` ... of its two
+// parameters). Nothing is assumed about the helper's name or signature.
+
+type c18Fold struct {
+	act   *ssa.Function // the registered module activator
+	actTm *Termer
+	host  *ssa.Function // the function that contains the loop (act itself, or the function act calls)
+	tm    *Termer       // of host
+	call  *ssa.Call     // act's call of host (nil when host == act)
+	loop  *Loop
+	acc   *ssa.Phi
+}
+
+// c18FoldOf: the one loop of the activator, or the one loop of the one library function whose result the activator
+// stores into a slice element.
+func c18FoldOf(fn *ssa.Function) (*c18Fold, string) {
+	const none = "expected one loop over the inputs"
+	fd := &c18Fold{act: fn, actTm: NewTermer(fn), host: fn}
+	loops := Loops(fn)
+	switch {
+	case len(loops) == 1:
+		fd.tm = fd.actTm
+	case len(loops) == 0:
+		var calls []*ssa.Call
+		seen := map[*ssa.Call]bool{}
+		Instrs(fn, func(_ *ssa.BasicBlock, _ int, in ssa.Instruction) {
+			st, ok := in.(*ssa.Store)
+			if !ok {
+				return
+			}
+			if _, ok := st.Addr.(*ssa.IndexAddr); !ok {
+				return
+			}
+			c, ok := st.Val.(*ssa.Call)
+			if !ok || seen[c] {
+				return
+			}
+			h := c.Call.StaticCallee()
+			if h == nil || !InRepo(h) || len(h.Blocks) == 0 || c.Call.IsInvoke() || h.Signature.Results().Len() != 1 || len(c.Call.Args) != len(h.Params) {
+				return
+			}
+			if len(Loops(h)) != 1 {
+				return
+			}
+			seen[c] = true
+			calls = append(calls, c)
+		})
+		if len(calls) != 1 {
+			return nil, none
+		}
+		fd.call, fd.host = calls[0], calls[0].Call.StaticCallee()
+		fd.tm = NewTermer(fd.host)
+		loops = Loops(fd.host)
+	default:
+		return nil, none
+	}
+	fd.loop = loops[0]
+	for _, ph := range HeaderPhis(fd.loop) {
+		if isFloatType(ph.Type()) {
+			fd.acc = ph
+		}
+	}
+	return fd, ""
+}
+
+// arg: the activator's value a host parameter stands for (nil when v is not a parameter of a called host).
+func (fd *c18Fold) arg(v ssa.Value) ssa.Value {
+	if fd.call == nil {
+		return nil
+	}
+	if ct, ok := v.(*ssa.ChangeType); ok {
+		v = ct.X
+	}
+	pa, ok := v.(*ssa.Parameter)
+	if !ok {
+		return nil
+	}
+	for i, q := range fd.host.Params {
+		if q == pa {
+			return fd.call.Call.Args[i]
+		}
+	}
+	return nil
+}
+
+// inputsIdx: the indices of the host's parameters that hold the activator's input vector (its first parameter,
+// handed on unchanged); {0} when the activator runs the loop itself.
+func (fd *c18Fold) inputsIdx() []int {
+	if fd.call == nil {
+		return []int{0}
+	}
+	var out []int
+	if len(fd.act.Params) == 0 {
+		return nil
+	}
+	for i, a := range fd.call.Call.Args {
+		if a == ssa.Value(fd.act.Params[0]) && i < len(fd.host.Params) {
+			out = append(out, i)
+		}
+	}
+	return out
+}
+
+// isInput: v (a value of host) is an element of the input vector, by its origin term.
+func (fd *c18Fold) isInput(v ssa.Value) bool {
+	t := fd.tm.Of(v)
+	if t.Op != "elem" {
+		return false
+	}
+	for _, k := range fd.inputsIdx() {
+		if isParamIdx(t.Args[0], k) {
+			return true
+		}
+	}
+	return false
+}
+
+// edges: the value the accumulator starts from and the value it takes after one iteration.
+func (fd *c18Fold) edges() (init, upd ssa.Value) {
+	for i, e := range fd.acc.Edges {
+		if fd.loop.Blocks[fd.acc.Block().Preds[i]] {
+			upd = e
+		} else {
+			init = e
+		}
+	}
+	return
+}
+
+// initTerm: the start value as a term of the activator where the host receives it as a parameter; inputsElem says
+// that it is an element of the input vector.
+func (fd *c18Fold) initTerm() (t *Term, inputsElem bool) {
+	init, _ := fd.edges()
+	if init == nil {
+		return nil, false
+	}
+	if a := fd.arg(init); a != nil {
+		// an argument is a value of the activator: an element of ITS inputs there
+		t = fd.actTm.Of(a)
+		return t, t.Op == "elem" && isParamIdx(t.Args[0], 0)
+	}
+	return fd.tm.Of(init), fd.isInput(init)
+}
+
+// c18BinaryOp names the operation a two-argument function performs: "math.Max" / "math.Min" for these functions of
+// the standard library; for a function with a body that is one block returning x*y, math.Max(x, y) or math.Min(x, y)
+// of its two (distinct) parameters in either order: "*", "math.Max", "math.Min". All three are commutative, so the
+// order in which the parameters appear does not matter. "" otherwise.
+func c18BinaryOp(v ssa.Value) string {
+	if ct, ok := v.(*ssa.ChangeType); ok {
+		v = ct.X
+	}
+	if mc, ok := v.(*ssa.MakeClosure); ok {
+		if len(mc.Bindings) != 0 {
+			return ""
+		}
+		v = mc.Fn
+	}
+	f, ok := v.(*ssa.Function)
+	if !ok || f.Signature.Recv() != nil {
+		return ""
+	}
+	if n := c18MathMaxMin(f); n != "" {
+		return n
+	}
+	if len(f.Blocks) != 1 || len(f.Params) != 2 || len(f.FreeVars) != 0 {
+		return ""
+	}
+	ret, ok := f.Blocks[0].Instrs[len(f.Blocks[0].Instrs)-1].(*ssa.Return)
+	if !ok || len(ret.Results) != 1 {
+		return ""
+	}
+	both := func(a, b ssa.Value) bool {
+		p, q := ssa.Value(f.Params[0]), ssa.Value(f.Params[1])
+		return (a == p && b == q) || (a == q && b == p)
+	}
+	switch x := ret.Results[0].(type) {
+	case *ssa.BinOp:
+		if x.Op == token.MUL && both(x.X, x.Y) && isFloatType(x.Type()) {
+			return "*"
+		}
+	case *ssa.Call:
+		if g := x.Call.StaticCallee(); g != nil && !x.Call.IsInvoke() && len(x.Call.Args) == 2 && both(x.Call.Args[0], x.Call.Args[1]) {
+			return c18MathMaxMin(g)
+		}
+	}
+	return ""
+}
+
+func c18MathMaxMin(f *ssa.Function) string {
+	if f == nil || f.Pkg == nil || f.Pkg.Pkg.Path() != "math" || f.Signature.Recv() != nil {
+		return ""
+	}
+	switch f.Name() {
+	case "Max", "Min":
+		return "math." + f.Name()
+	}
+	return ""
+}
+
+// update: the operation of one iteration and its two operands (values of host): acc*x is ("*", acc, x);
+// math.Max(acc, x) - called directly or through a function-valued parameter of the host for which the activator
+// passes math.Max or an equivalent function - is ("math.Max", acc, x). desc describes what was found.
+func (fd *c18Fold) update() (op string, x, y ssa.Value, desc string) {
+	_, upd := fd.edges()
+	if upd == nil {
+		return "", nil, nil, "?"
+	}
+	desc = fd.tm.Of(upd).String()
+	switch u := upd.(type) {
+	case *ssa.BinOp:
+		if u.Op == token.MUL {
+			return "*", u.X, u.Y, desc
+		}
+	case *ssa.Call:
+		if u.Call.IsInvoke() || len(u.Call.Args) != 2 {
+			return "", nil, nil, desc
+		}
+		if g := u.Call.StaticCallee(); g != nil {
+			n := c18MathMaxMin(g)
+			if n == "" {
+				n = c18BinaryOp(u.Call.Value)
+			}
+			if n != "" {
+				return n, u.Call.Args[0], u.Call.Args[1], desc
+			}
+			return "", nil, nil, desc
+		}
+		if a := fd.arg(u.Call.Value); a != nil {
+			n := c18BinaryOp(a)
+			desc += " with the operation " + fd.actTm.Of(a).String()
+			if n != "" {
+				return n, u.Call.Args[0], u.Call.Args[1], desc + " = " + n
+			}
+		}
+	}
+	return "", nil, nil, desc
+}
+
+// updates: the iteration computes op(acc, input) (either operand order; the operations are commutative).
+func (fd *c18Fold) updates(want string) (bool, string) {
+	op, x, y, desc := fd.update()
+	ok := op == want && ((x == ssa.Value(fd.acc) && fd.isInput(y)) || (y == ssa.Value(fd.acc) && fd.isInput(x)))
+	return ok, desc
+}
+
+// allInputs: the loop's counter runs up to the length of the input vector.
+func (fd *c18Fold) allInputs() bool {
+	for _, k := range fd.inputsIdx() {
+		ln := fmt.Sprintf("len(p%d)", k)
+		if b, _, ok := loopCounterFrom(fd.loop, fd.tm); ok && b.String() == ln {
+			return true
+		}
+		// range loops use phi{-1,i}+1 < len
+		for bl := range fd.loop.Blocks {
+			if iff, ok := bl.Instrs[len(bl.Instrs)-1].(*ssa.If); ok {
+				if strings.HasSuffix(fd.tm.Of(iff.Cond).String(), "<"+ln+")") {
+					return true
+				}
+			}
+		}
+	}
+	return false
+}
+
+// result: the accumulator is what the activator hands back: it is stored into a slice element (`[]float64{acc}`);
+// with a host, every return of the host yields the accumulator and the activator stores the call's value.
+func (fd *c18Fold) result() bool {
+	stored := func(fn *ssa.Function, v ssa.Value) bool {
+		found := false
+		Instrs(fn, func(_ *ssa.BasicBlock, _ int, in ssa.Instruction) {
+			if st, ok := in.(*ssa.Store); ok && st.Val == v {
+				if _, ok := st.Addr.(*ssa.IndexAddr); ok {
+					found = true
+				}
+			}
+		})
+		return found
+	}
+	if fd.call == nil {
+		return stored(fd.act, fd.acc)
+	}
+	n := 0
+	for _, b := range fd.host.Blocks {
+		if ret, ok := b.Instrs[len(b.Instrs)-1].(*ssa.Return); ok {
+			if len(ret.Results) != 1 || ret.Results[0] != ssa.Value(fd.acc) {
+				return false
+			}
+			n++
+		}
+	}
+	return n > 0 && stored(fd.act, fd.call)
+}
+
+// ---------------------------------------------------------------------------
+// Scalar activations that hand their input to a branching helper
+//
+// pureHelperCall unfolds straight-line helpers inside expressions. A registered function whose whole body is
+// `[definitions of fresh locals;] return h(a1, ..., an)` with h a declared function of the package that branches
+// (an if / else-if ladder, a switch, early returns) computes exactly what h's body computes with every parameter of
+// h holding the value of its argument. c18ScalarBody replaces such a function by h's body, read under bindings that
+// give each parameter of h its argument expression (itself read under the caller's bindings - so a parameter that
+// receives the input IS the input for the interpreter, and one that receives a constant is that constant). The
+// interpreter and the normal form then judge h's branches and results like the activation's own; nothing of what they
+// prove changes. Preconditions (otherwise the function is left as it is and the call stays outside the tables):
+// h is a plain top-level function of the same package with float parameters and one unnamed float result, not
+// variadic / generic, not already being unfolded (recursion); every argument is an expression of the interpreter's
+// tables (pure, so evaluating it where the parameter is read instead of at the call makes no difference).
+func c18ScalarBody(info *types.Info, decls helperDecls, ftype *ast.FuncType, body *ast.BlockStmt, bind aenv) (*ast.BlockStmt, aenv) {
+	if info == nil || decls == nil || ftype == nil || body == nil || ftype.Params == nil || len(ftype.Params.List) == 0 {
+		return body, bind
+	}
+	var input types.Object
+	if first := ftype.Params.List[0]; len(first.Names) > 0 && first.Names[0].Name != "_" {
+		input = info.Defs[first.Names[0]]
+	}
+	if input == nil {
+		return body, bind
+	}
+	busy := map[*ast.FuncDecl]bool{}
+	for depth := 0; depth < 8; depth++ {
+		nb, ne, ok := c18TailCall(info, decls, input, body, bind, busy)
+		if !ok {
+			break
+		}
+		body, bind = nb, ne
+	}
+	return body, bind
+}
+
+func c18TailCall(info *types.Info, decls helperDecls, input types.Object, body *ast.BlockStmt, bind aenv, busy map[*ast.FuncDecl]bool) (*ast.BlockStmt, aenv, bool) {
+	if len(body.List) == 0 {
+		return nil, nil, false
+	}
+	last := len(body.List) - 1
+	ret, ok := body.List[last].(*ast.ReturnStmt)
+	if !ok || len(ret.Results) != 1 {
+		return nil, nil, false
+	}
+	call, ok := unparen(ret.Results[0]).(*ast.CallExpr)
+	if !ok || call.Ellipsis.IsValid() {
+		return nil, nil, false
+	}
+	id, ok := unparen(call.Fun).(*ast.Ident)
+	if !ok {
+		return nil, nil, false
+	}
+	fobj, ok := info.Uses[id].(*types.Func)
+	if !ok {
+		return nil, nil, false
+	}
+	decl := decls[fobj]
+	if decl == nil || decl.Recv != nil || decl.Body == nil || decl.Type.TypeParams != nil || busy[decl] {
+		return nil, nil, false
+	}
+	sig, ok := fobj.Type().(*types.Signature)
+	if !ok || sig.Variadic() || sig.Recv() != nil || sig.Results().Len() != 1 || !isFloatType(sig.Results().At(0).Type()) || sig.Params().Len() != len(call.Args) {
+		return nil, nil, false
+	}
+	for i := 0; i < sig.Params().Len(); i++ {
+		if !isFloatType(sig.Params().At(i).Type()) {
+			return nil, nil, false
+		}
+	}
+	if decl.Type.Results != nil && len(decl.Type.Results.List) == 1 && len(decl.Type.Results.List[0].Names) > 0 {
+		return nil, nil, false // a named result is a variable of its own
+	}
+	// the caller's statements before the return: definitions of fresh locals only
+	ai := &absInterp{info: info, input: input, body: body, decls: decls}
+	if bind == nil {
+		bind = aenv{}
+	}
+	st := []astate{{apiece{lo: -1e300, hi: 1e300}, bind}}
+	for _, s := range body.List[:last] {
+		switch x := s.(type) {
+		case *ast.AssignStmt:
+			if x.Tok != token.DEFINE {
+				return nil, nil, false
+			}
+			for _, l := range x.Lhs {
+				lid, isId := l.(*ast.Ident)
+				if !isId || (lid.Name != "_" && info.Defs[lid] == nil) {
+					return nil, nil, false
+				}
+			}
+		case *ast.DeclStmt, *ast.EmptyStmt:
+		default:
+			return nil, nil, false
+		}
+		var out []aresult
+		next, bad := ai.step(s, st[0], &out)
+		if bad != "" || len(next) != 1 || len(out) != 0 {
+			return nil, nil, false
+		}
+		st = next
+	}
+	env := st[0].env
+	// arguments: expressions of the tables
+	for _, a := range call.Args {
+		if v := ai.eval(a, st[0].p, env); v.bad != "" {
+			return nil, nil, false
+		}
+	}
+	renv := aenv{}
+	k := 0
+	for _, f := range decl.Type.Params.List {
+		if len(f.Names) == 0 {
+			k++
+			continue
+		}
+		for _, nm := range f.Names {
+			if nm.Name != "_" {
+				obj := info.Defs[nm]
+				if obj == nil {
+					return nil, nil, false
+				}
+				renv = renv.with(obj, &abind{expr: call.Args[k], env: env})
+			}
+			k++
+		}
+	}
+	if k != len(call.Args) {
+		return nil, nil, false
+	}
+	busy[decl] = true
+	return decl.Body, renv, true
 }
